@@ -375,11 +375,12 @@ Definition hint_ok (h : hint) (v : value) : bool :=
 (* the finite sequence an iterable denotes (strings iterate by grapheme cluster:
    outside the model unless ASCII) *)
 Definition range_elems (lo hi : Z) (incl : bool) : option (list value) :=
-  let hi' := if incl then hi + (if lo <=? hi then 1 else -1) else hi in
-  let n := Z.abs (hi' - lo) in
-  if n >? 4096 then None
-  else Some (map (fun k => VInt (if lo <=? hi' then lo + Z.of_nat k else lo - Z.of_nat k))
-                 (seq 0 (Z.to_nat n))).
+  (* ascending only: a range whose start is above its end is empty *)
+  let hi' := if incl then hi + 1 else hi in
+  let n := hi' - lo in
+  if n <=? 0 then Some []
+  else if n >? 4096 then None
+  else Some (map (fun k => VInt (lo + Z.of_nat k)) (seq 0 (Z.to_nat n))).
 
 Definition is_ascii (s : bytes) : bool := forallb (fun c => N.ltb c 128) s.
 
